@@ -45,6 +45,27 @@ def _same_list(got, want):
     return None
 
 
+def _same_list_under(got, want, cons):
+    """like _same_list, but a differing bit is accepted when it is equal
+    under the path condition cons (cxcodecs constraints)"""
+    from . import cxcodecs as XC
+    if len(got) != len(want):
+        return 'the region has {} bytes afterwards instead of {}'.format(
+            len(got), len(want))
+    for i, (x, y) in enumerate(zip(got, want)):
+        if x is y:
+            continue
+        xb, yb = _b8(x), _b8(y)
+        if xb == yb:
+            continue
+        for k in range(8):
+            if xb.cell(k) != yb.cell(k) and not XC._equal_under(
+                    xb.cell(k), yb.cell(k), cons):
+                return 'byte {} becomes {} instead of {} (when {})'.format(
+                    i, xb, yb, XC.describe_constraints(cons))
+    return None
+
+
 class Acc:
     def __init__(self, ctx, cls_qual, size, name):
         self.ctx = ctx
@@ -78,6 +99,36 @@ class Acc:
         if not allow_fork and (len(paths) != 1 or paths[0][0]):
             raise CX.CxError('{} branches on memory contents'.format(meth))
         return paths
+
+
+def call_paths(acc, o, meth, args, kwargs=None):
+    """every path of the call that tests content / argument bits:
+    -> [(constraints, ('ok', v) | ('raise', e), region bytes afterwards)]"""
+    from . import cxcodecs as XC
+    acc.calls += 1
+    cxi = acc.cx
+    snap = list(o.attrs['_data'].items)
+    after = []
+
+    def go():
+        o.attrs['_data'].items[:] = snap
+        try:
+            return cxi.call(cxi.getattr(o, meth), list(args),
+                            dict(kwargs or {}))
+        finally:
+            after.append(list(o.attrs['_data'].items))
+    paths = cxi.explore(go)
+    out = []
+    for (c, r), mem in zip(paths, after):
+        if r[0] == 'raise' and r[1].tname == 'AssertionError' and \
+                r[1].args_ == ('assumed away',):
+            continue
+        cons = XC.constraints_of(c)
+        if cons is None:
+            raise CX.CxError('{} branches on a value that is not a bit '
+                             'test'.format(meth))
+        out.append((cons, r, mem))
+    return out
 
 
 def field_bv(name, width):
@@ -131,11 +182,6 @@ def eval_sfx(ctx, size):
             for chosen in ([fields] + [[f] for f in fields]):
                 kw = {f: field_bv(f, len(bits[f])) for f in chosen}
                 o = a.obj()
-                (c, r), = a.call(o, 'set_note', [i, n], kw)
-                if r[0] == 'raise':
-                    prob = 'set_note({}, {}, {}) raises {}'.format(
-                        i, n, chosen, r[1].tname)
-                    break
                 want = list(a.mem)
                 cells = {k: word_bit(a.mem, base, k) for k in range(16)}
                 for f in chosen:
@@ -143,10 +189,18 @@ def eval_sfx(ctx, size):
                         cells[k] = kw[f].cell(j)
                 want[base] = BV([cells[k] for k in range(8)])
                 want[base + 1] = BV([cells[k] for k in range(8, 16)])
-                d = _same_list(o.attrs['_data'].items, want)
-                if d:
-                    prob = 'set_note({}, {}, {}): {}'.format(
-                        i, n, '/'.join(chosen), d)
+                for (cons, r, mem) in call_paths(a, o, 'set_note', [i, n],
+                                                 kw):
+                    if r[0] == 'raise':
+                        prob = 'set_note({}, {}, {}) raises {}'.format(
+                            i, n, chosen, r[1].tname)
+                        break
+                    d = _same_list_under(mem, want, cons)
+                    if d:
+                        prob = 'set_note({}, {}, {}): {}'.format(
+                            i, n, '/'.join(chosen), d)
+                        break
+                if prob:
                     break
             if prob:
                 break
